@@ -39,7 +39,7 @@ func init() {
 	}})
 }
 
-var c02Kinds = []string{"general", "general", "beyond-capacity", "altered-recovery", "foreign-volume", "garbled-volume", "bystanders-matching", "intact", "big-altered"}
+var c02Kinds = []string{"general", "general", "beyond-capacity", "altered-recovery", "foreign-volume", "garbled-volume", "bystanders-matching", "intact", "big-altered", "altered-mixed", "recreate-after-edit"}
 
 func (c *c02) Cases(tier string, seed int64) []core.Case {
 	var cs []core.Case
@@ -215,6 +215,19 @@ func (c *c02) runPar2(r *core.R, p c02Params, rng *rand.Rand) {
 		if rng.Intn(2) == 0 {
 			set.Files = append(set.Files, scen.File{Name: "small.bin", Data: scen.GenData(rng, "random", 1+rng.Intn(3000), slice)})
 		}
+	case "recreate-after-edit":
+		slice := []int{2000, 4096, 1000, 400}[rng.Intn(4)]
+		set = scen.Set{SliceSize: slice, Blocks: 2 + rng.Intn(3), Content: "random"}
+		set.Files = append(set.Files, scen.File{Name: "big.bin", Data: scen.GenData(rng, "random", 17000+rng.Intn(12000), slice)})
+		set.Files = append(set.Files, scen.File{Name: "small.bin", Data: scen.GenData(rng, "random", 1+rng.Intn(2*slice), slice)})
+	case "altered-mixed":
+		set = genP2Set(rng, 6, []string{"random"}, false)
+		for len(set.Files) < 3 {
+			set.Files = append(set.Files, scen.File{Name: fmt.Sprintf("more-%d.bin", len(set.Files)), Data: scen.GenData(rng, "random", set.SliceSize+1+rng.Intn(3*set.SliceSize), set.SliceSize)})
+		}
+		if set.Blocks < 3 {
+			set.Blocks = 3
+		}
 	default:
 		set = genP2Set(rng, 6, scen.ContentKinds, true)
 	}
@@ -260,10 +273,43 @@ func (c *c02) runPar2(r *core.R, p c02Params, rng *rand.Rand) {
 	}
 	r.Count("runs_create_seam", 1)
 
+	if p.Kind == "recreate-after-edit" {
+		// The big file is edited in place behind its first 16 KiB (same length,
+		// same name: its PAR2 file ID stays what it was) and the archive is
+		// created again with the same options: from now on the edited bytes are
+		// the protected ones.
+		d := append([]byte(nil), set.Files[0].Data...)
+		for k := 0; k < 1+rng.Intn(4); k++ {
+			d[16384+rng.Intn(len(d)-16384)] ^= byte(1 + rng.Intn(255))
+		}
+		set.Files[0].Data = d
+		os.WriteFile(paths[0], d, 0644)
+		protected[filepath.Clean(paths[0])] = d
+		var cerr2 error
+		if pi := core.Protect(func() {
+			cerr2 = par2.Create(idx, paths, par2.CreateOptions{SliceByteCount: set.SliceSize, NumParityShards: set.Blocks, NumGoroutines: g})
+		}); pi != nil || cerr2 != nil {
+			r.Violate("create-failed", "second Create after an in-place edit: %v %v", cerr2, pi)
+			return
+		}
+		r.Count("recreated_after_edit", 1)
+	}
 	// Damage (no capacity filter).
 	st := scen.NewState(set)
 	nops := rng.Intn(5)
 	switch p.Kind {
+	case "recreate-after-edit":
+		nops = 0
+		st.Apply(scen.Op{Kind: "delete", A: 1})
+	case "altered-mixed":
+		// all files but the last only shifted (every slice still there), the last
+		// one loses two slices: the spoilt recovery data cannot restore it
+		nops = 0
+		for i := 0; i < len(set.Files)-1; i++ {
+			st.Apply(scen.Op{Kind: "insert", A: i, Pos: 0, G: scen.Garbage(rng, 1)})
+		}
+		last := len(set.Files) - 1
+		st.Apply(scen.Op{Kind: "overwrite", A: last, Pos: 0, G: scen.Garbage(rng, minInt(len(set.Files[last].Data), set.SliceSize+1))})
 	case "intact":
 		nops = 0
 	case "beyond-capacity":
@@ -291,7 +337,7 @@ func (c *c02) runPar2(r *core.R, p c02Params, rng *rand.Rand) {
 				b[rng.Intn(len(b))] ^= 0x20
 				os.WriteFile(v, b, 0644)
 			}
-		case p.Kind == "altered-recovery" || p.Kind == "big-altered":
+		case p.Kind == "altered-recovery" || p.Kind == "big-altered" || p.Kind == "altered-mixed":
 			// alter the recovery payload and re-checksum the packet
 			b, _ := os.ReadFile(v)
 			pk, err := par2rw.ParseStrict(b)
